@@ -379,6 +379,7 @@ func (mr *memRepo) blobCreate(locked bool, opts ...BlobOpt) (BlobCreator, string
 		if ok {
 			// the push is acknowledged without a new copy, the existing one counts as uploaded now for the GC grace period
 			b.m.mod = time.Now()
+			mr.timeMod = b.m.mod
 			return nil, "", types.ErrBlobExists
 		}
 	}
